@@ -17,3 +17,13 @@ func TestReplay(t *testing.T) {
 	}
 	pbt.ReplayFile(t, p)
 }
+
+// TestRegress replays every saved case under $VERIF_REGRESS_DIR (the seconds-long regression tier:
+// shrunk cases that exposed a seeded change or a repaired defect; all pass on a tree where the property holds).
+func TestRegress(t *testing.T) {
+	d := os.Getenv("VERIF_REGRESS_DIR")
+	if d == "" {
+		t.Skip("VERIF_REGRESS_DIR not set")
+	}
+	pbt.ReplayDir(t, d)
+}
